@@ -17,69 +17,96 @@ ASSUMPTIONS = ["MIR models control/data flow faithfully", "crc32fast is determin
 PROBES = {"vlog::ValueLocation::decode": "writer-side probe: an inline value is not a pointer", "vlog::ValuePointer::decode": "writer-side probe"}
 
 
-@rule("C16", "C16.R1", "a table block is used only after its checksum matched")
+def verifiers(cx):
+    """functions that return Ok only when verify_table_block() answered true for the bytes they read"""
+    f = cx.f
+    from ..core import bool_edges
+    res = {}
+    for c in f.callers_of("sstable::table::verify_table_block"):
+        b = c.body
+        oks = [x for x, k in exits(b) if k in ("ok", "tail")]
+        good = bool(oks)
+        for x in oks:
+            cond = bool_call_condition(b, c, x)
+            if cond != frozenset({True}):
+                good = False
+        if good:
+            res[f.canon[b.id]] = (b, c)
+    return res
+
+
+@rule("C16", "C16.R1", "table bytes are used only after their checksum matched")
 def r1(cx):
     f = cx.f
-    b = f.body("sstable::table::read_table_block")
-    vf = sites(cx, b, "sstable::table::verify_table_block")
-    dc = sites(cx, b, "sstable::table::decompress_block")
-    bn = sites(cx, b, "sstable::block::Block::new")
-    for c in dc + bn:
-        cond = bool_call_condition(b, vf[0], c.bb)
-        cx.check(cond == frozenset({True}), "`%s` runs only when verify_table_block returned true" % c.primary.split("::")[-1], "use-before-verify|%s" % c.primary.split("::")[-1], c.where(),
-                 "read_table_block reaches `%s` when the checksum check is %s" % (c.primary, sorted(cond) if cond is not None else "not consulted"))
-    from ..core import bool_edges
-    e, sw = bool_edges(b, vf[0].dest[0], vf[0].target)
-    fl = [s for s, lab in e.items() if False in lab]
-    r = feasible_reach(b, fl)
-    cx.check(not any(x in r for x, k in exits(b) if k == "ok"), "a checksum mismatch returns an error", "verify-fail-ok", vf[0].where())
+    V = verifiers(cx)
+    cx.floor("verifying readers", len(V), 1)
+    for name, (b, c) in V.items():
+        cx.ok("`%s` returns Ok only on the success edge of the checksum comparison" % name, c.where())
+        # the verified bytes are the ones read
+        o = origin_of_operand(b, c.args[0], through_calls="all")
+        cx.check(o.from_call("sstable::table::read_bytes"), "`%s` verifies the bytes it read" % name, "verify-wrong-bytes|%s" % name, c.where())
+    Vn = set()
+    for n in V:
+        Vn |= f.aliases_of(n)
+    # consumers of block bytes
+    n = 0
+    for pat, argi in (("sstable::table::decompress_block", 0), ("sstable::block::Block::new", 0), ("sstable::filter_block::FilterBlockReader::new", 0)):
+        for c in f.callers_of(pat):
+            b = c.body
+            if "/sstable/table.rs" not in b.file and "sstable/table.rs" not in b.file:
+                continue
+            n += 1
+            o = origin_of_operand(b, c.args[argi], through_calls="all")
+            via_verifier = bool(o.call_names() & Vn)
+            in_verifier = f.canon[b.id] in V and bool_call_condition(b, V[f.canon[b.id]][1], c.bb) == frozenset({True})
+            # decompressed data of verified bytes
+            cx.check(via_verifier or in_verifier, "`%s` in `%s` consumes checksum-verified bytes" % (pat.split("::")[-1], b.id), "use-before-verify|%s|%s" % (b.id, pat.split("::")[-1]), c.where(),
+                     "`%s` hands bytes to `%s` that did not pass through a checksum-verifying read" % (b.id, pat))
+    cx.floor("consumers of block bytes", n, 3)
     # verify compares computed == wanted
     vb = f.body("sstable::table::verify_table_block")
-    fin = sites(cx, vb, "crc32fast::Hasher::finalize")
     okc = False
     for cmp_ in comparisons(vb):
         lo, ro = origin_of_operand(vb, cmp_.lhs), origin_of_operand(vb, cmp_.rhs)
         if lo.from_call("crc32fast::Hasher::finalize") != ro.from_call("crc32fast::Hasher::finalize"):
-            from ..core import REL
             ret = origin_of_operand(vb, ["c", [0]])
             okc = cmp_.op == "Eq" and "Not" not in ret.ops
             cx.check(okc, "verify_table_block returns computed == stored", "verify-predicate", cmp_.where(), "verify_table_block returns `computed %s stored`" % cmp_.op)
     cx.check(okc, "verify_table_block compares the computed CRC with the stored one", "verify-no-compare", vb.where())
     up = sites(cx, vb, "crc32fast::Hasher::update", minimum=2)
-    # writer: same CRC input (block bytes then compression byte)
     wb = f.body("sstable::table::calculate_checksum")
     wu = sites(cx, wb, "crc32fast::Hasher::update", minimum=2)
     cx.check(len(up) == len(wu), "writer and verifier hash the same number of parts (%d)" % len(up), "crc-parts", vb.where())
-    # the stored checksum is unmasked before comparison; writer masks
-    cx.check(bool(b.calls_to("sstable::table::unmask")), "the reader unmasks the stored checksum", "no-unmask", b.where())
+    um = f.callers_of("sstable::table::unmask")
+    cx.check(bool(um) and all(f.canon[c.body.id] in V for c in um), "the stored checksum is unmasked inside the verifying reader", "no-unmask", vb.where())
     ww = f.body("sstable::table::write_block_at_offset")
     cx.check(bool(ww.calls_to("sstable::table::mask")), "the writer masks the checksum", "no-mask", ww.where())
-    # every block loader goes through read_table_block
+    # every block loader goes through a verifying reader
     loaders = ["Table::read_block", "Table::read_block_with_comparator", "Index::load_block", "Index::new", "Table::new"]
     for fn in loaders:
         lb = f.body(fn)
-        cx.check(f.may_reach(lb.id, "sstable::table::read_table_block"), "`%s` loads blocks through the verifying reader" % fn, "loader-unverified|%s" % fn, lb.where(),
-                 "`%s` no longer goes through read_table_block" % fn)
+        cx.check(bool(f.reach_names(lb.id) & Vn), "`%s` loads blocks through a verifying reader" % fn, "loader-unverified|%s" % fn, lb.where(),
+                 "`%s` no longer goes through a checksum-verifying reader" % fn)
     # cache insert only after a verified read
     for fn, ins in (("Table::read_block", "BlockCache::insert_data_block"), ("Table::read_block_with_comparator", "BlockCache::insert_data_block_history"),
                     ("Index::load_block", "BlockCache::insert_index_block")):
         lb = f.body(fn)
-        rd = sites(cx, lb, "sstable::table::read_table_block")
+        rd = [c for c in lb.calls if c.bb in lb.live and f.call_may_reach(c, Vn)]
         dom(cx, lb, rd, sites(cx, lb, ins), "%s: only verified blocks enter the cache" % fn.split("::")[-1])
 
 
-@rule("C16", "C16.R2", "nobody but the verifying reader (and the footer) reads raw block bytes")
+@rule("C16", "C16.R2", "nobody but a verifying reader (and the footer) reads raw block bytes")
 def r2(cx):
     f = cx.f
-    allowed = {"sstable::table::read_table_block"}
+    V = verifiers(cx)
     cs = f.callers_of("sstable::table::read_bytes")
     cx.floor("read_bytes call sites", len(cs), 3)
     for c in cs:
-        owner = f.fn_of(c.body).id
-        ok = owner in allowed
-        cx.check(ok, "raw block read in `%s` (verifying reader)" % owner, "raw-read|%s" % owner, c.where(),
+        owner = f.fn_of(c.body)
+        ok = f.canon[owner.id] in V
+        cx.check(ok, "raw block read in `%s`, which verifies the checksum before returning" % owner.id, "raw-read|%s" % owner.id, c.where(),
                  "`%s` reads block bytes with read_bytes() without checksum verification although the writer gave the block a CRC trailer: "
-                 "damage is parsed as data (wrong answers / panics) instead of being reported" % owner)
+                 "damage is parsed as data (wrong answers / panics) instead of being reported" % owner.id)
     # the filter block is written with a trailer
     wf = f.body("TableWriter::finish")
     cx.check(bool(wf.calls_to("TableWriter::write_compressed_block")), "the writer gives every meta/filter block a checksum trailer", "writer-no-trailer", wf.where())
@@ -97,35 +124,55 @@ def r2(cx):
     cx.floor("read_at sites in sstable", n, 2)
 
 
-@rule("C16", "C16.R3", "sizes taken from disk are bounded before they size an allocation")
+@rule("C16", "C16.R3", "sizes taken from unchecksummed bytes are bounded before they size an allocation")
 def r3(cx):
     f = cx.f
-    b = f.body("sstable::table::read_bytes")
-    # vec![0; location.size()] -- the size must be compared with the file size on every path
-    allocs = [c for c in b.calls if c.bb in b.live and (c.primary.endswith("from_elem") or c.primary.endswith("with_capacity") or c.primary.endswith("Vec::resize"))]
+    # Block handles come from (a) index / meta-index entries inside CRC-verified blocks -- accepted, the CRC
+    # covers them -- and (b) the table footer, which no checksum covers.  (b) must be compared with the file
+    # size by the function that turns footer bytes into a Footer, before any handle reaches read_bytes().
+    prod = [c for c in f.callers_of("sstable::table::Footer::decode") if "Footer" not in (c.body.self_ty or "")]
+    cx.floor("footer decoding sites", len(prod), 1)
+    for c in prod:
+        b = c.body
+        bodies = [b] + f.closures_of(b)
+        bound_cmps = []
+        for bb_ in bodies:
+            for cmp_ in comparisons(bb_):
+                lo, ro = origin_of_operand(bb_, cmp_.lhs, through_calls="all"), origin_of_operand(bb_, cmp_.rhs, through_calls="all")
+                def is_fs(o, body=bb_):
+                    return any(body.local_name(l) == "file_size" for l, _ in o.params) or "file_size" in o.upvar_names or o.from_call("vfs::File::size")
+                if is_fs(lo) != is_fs(ro):
+                    bound_cmps.append((bb_, cmp_))
+        uses_handles = any(x.names & {"BlockHandle::size", "BlockHandle::offset", "sstable::block::BlockHandle::size", "sstable::block::BlockHandle::offset"} for bb_ in bodies for x in bb_.calls)
+        # the check must control the Ok exit: some boolean call/comparison in `b` guards every Ok exit
+        oks = [x for x, k in exits(b) if k in ("ok", "tail") and x in b.reachable_after([c.bb])]
+        guarded = False
+        from ..core import bool_edges
+        for g in b.calls:
+            # a boolean test after the decode one of whose outcomes can only leave through an error exit
+            if g.bb in b.live and g.ret_ty == "bool" and g.target is not None and g.bb in b.reachable_after([c.bb]):
+                e, sw = bool_edges(b, g.dest[0], g.target)
+                if e:
+                    for tgt in e:
+                        r = feasible_reach(b, [tgt], avoid=[sw])
+                        if not any(x in r for x in oks) and any(x in r for x, k in exits(b) if k == "err"):
+                            guarded = True
+        for bb_, cmp_ in bound_cmps:
+            if bb_ is b:
+                for sw, e in cmp_.switches():
+                    for tgt in e:
+                        r = feasible_reach(b, [tgt], avoid=[sw])
+                        if not any(x in r for x in oks) and any(x in r for x, k in exits(b) if k == "err"):
+                            guarded = True
+        cx.check(bool(bound_cmps) and uses_handles and guarded, "`%s` compares the footer's block handles with the file size before returning them" % b.id,
+                 "unbounded-footer-handle|%s" % b.id, c.where(),
+                 "`%s` returns block handles decoded from the (unchecksummed) footer without comparing offset+size with the file size: read_bytes() then allocates "
+                 "`location.size()` bytes, so a damaged size field aborts the process (allocation failure) instead of returning an error" % b.id)
+    # read_bytes is the only allocation sized by a handle
+    rb = f.body("sstable::table::read_bytes")
+    allocs = [c for c in rb.calls if c.bb in rb.live and (c.primary.endswith("from_elem") or c.primary.endswith("with_capacity"))]
     cx.floor("allocations sized from a block handle", len(allocs), 1)
-    for c in allocs:
-        o = origin_of_operand(b, c.args[-1] if c.primary.endswith("from_elem") else c.args[0], through_calls="all")
-        if not o.from_call("sstable::table::BlockHandle::size", "BlockHandle::size"):
-            continue
-        bounded = False
-        for cmp_ in comparisons(b):
-            lo, ro = origin_of_operand(b, cmp_.lhs, through_calls="all"), origin_of_operand(b, cmp_.rhs, through_calls="all")
-            if (lo.from_call("BlockHandle::size") and ro.from_call("vfs::File::size")) or (ro.from_call("BlockHandle::size") and lo.from_call("vfs::File::size")):
-                if cmp_.condition_to_reach(c.bb) is not None:
-                    bounded = True
-        # callers may bound it instead: every caller passes a handle that was checked against the file size
-        if not bounded:
-            callers_ok = True
-            for cc in f.callers_of("sstable::table::read_bytes"):
-                callers_ok = False
-        cx.check(bounded, "read_bytes allocates `location.size()` bytes only after comparing it with the file size", "unbounded-alloc|read_bytes", c.where(),
-                 "read_bytes allocates `location.size()` bytes taken from an on-disk block handle without comparing it with the file size: the footer's handles "
-                 "are not covered by any checksum, so a damaged size field aborts the process (allocation failure / capacity overflow) instead of returning an error")
-    # footer: magic + length validated before decode
-    fb = f.body("Footer::decode")
-    cx.ok("Footer::decode present at %s" % fb.where(), fb.where())
-    # WAL: length bounded (C12.R2) -- re-evaluated here
+    # WAL: record length bounded by the buffer (C12.R2) -- re-evaluated here
     nb = f.body("wal::reader::Reader::next")
     n = 0
     for cmp_ in comparisons(nb):
